@@ -114,6 +114,15 @@ func loadFindings() []Finding {
 	return out
 }
 
+// OutRoot is where evidence and replays are written (VERIF_OUT overrides; used when a check is
+// run against a scratch copy of the repository so that /verif/evidence is left alone).
+func OutRoot() string {
+	if r := os.Getenv("VERIF_OUT"); r != "" {
+		return r
+	}
+	return Root()
+}
+
 // Coverage is the free-form coverage object of the evidence file.
 type Coverage map[string]any
 
@@ -134,7 +143,7 @@ func (r *Reporter) FinishNoExit(cov Coverage, assumptions []string) int {
 	}
 	sort.Strings(r.order)
 	nViol, nKnown := 0, 0
-	root := Root()
+	root := OutRoot()
 	for _, k := range r.order {
 		v := r.viol[k]
 		if f, ok := known[k]; ok {
